@@ -150,11 +150,11 @@ def run(rep, work, tier, seed, props, replay=None):
     #     no Tensor / Operation may survive with the cyclic GC disabled
     rel_tasks, rel_res, rel_bad = [], [], 0
     if replay is None or "catalog_index" in (replay or {}):
-        rel_tasks, rel_res = gh.catalogue_sweep("release", ([0, 1, 2] if tier == "thorough" else [0, 2]) if replay is None else [replay.get("kind", 0)], seed, "kind", replay)
+        rel_tasks, rel_res = gh.catalogue_sweep("release", ([0, 1, 2, 3] if tier == "thorough" else [0, 2, 3]) if replay is None else [replay.get("kind", 0)], seed, "kind", replay)
         shown = set()
         for t, r in zip(rel_tasks, rel_res):
             for m in r.get("msgs", []):
-                if "still alive" not in m:
+                if "still alive" not in m and "still has its creator" not in m:
                     continue
                 rel_bad += 1
                 key = r["label"].split("(")[0].split(" ")[0]
